@@ -30,21 +30,11 @@ impl Vm {
             if cycles % 8192 == 0 {
                 self.run_gc();
             }
-            if cycles == count {
-                #[cfg(feature = "verif")]
-                if crate::vm::verif::slice_end_gc() {
-                    crate::vm::verif::set_force_gc(true);
-                }
-                self.run_gc();
-                #[cfg(feature = "verif")]
-                crate::vm::verif::clear_force_gc();
-                return Ok(None);
-            }
             #[cfg(feature = "verif")]
             crate::vm::verif::before_instruction(self);
             match self.run_one() {
                 Ok(true) => break,
-                Ok(false) => continue,
+                Ok(false) => {}
                 Err(e) => {
                     self.last_stacktrace = Some(StackTrace::new(
                         &self.stack,
@@ -54,6 +44,18 @@ impl Vm {
                     ));
                     return Err(e);
                 }
+            }
+            // The budget is checked after the instruction so that every slice,
+            // even one of a single instruction, makes progress.
+            if cycles == count {
+                #[cfg(feature = "verif")]
+                if crate::vm::verif::slice_end_gc() {
+                    crate::vm::verif::set_force_gc(true);
+                }
+                self.run_gc();
+                #[cfg(feature = "verif")]
+                crate::vm::verif::clear_force_gc();
+                return Ok(None);
             }
         }
         trace!("cycles: {}", cycles);
